@@ -251,6 +251,10 @@ func (r *Run) Section(name string, n int, opts SectionOpts, fn func(c *Case)) {
 	if r.Quick() && r.quickScale > 0 && !opts.NoScale {
 		n = int(float64(n)*r.quickScale + 0.5)
 	}
+	if os.Getenv("VERIF_TIMING") != "" {
+		t0 := time.Now()
+		defer func() { fmt.Fprintf(os.Stderr, "TIMING section=%s cases=%d wall=%.1fs\n", name, n, time.Since(t0).Seconds()) }()
+	}
 	if r.Replaying() {
 		if name != r.replaySection {
 			return
